@@ -103,15 +103,15 @@ E('convert', lambda s: etl.convert(s, 'f0', str), stream=0, group='conversions')
 E('convert-dict', lambda s: etl.convert(s, {'f0': lambda v: v + 1, 'f1': 'upper', 'f2': {'1': 'one'}}), stream=0, group='conversions')
 E('convert-where', lambda s: etl.convert(s, 'f0', lambda v: -v, where=lambda r: r['f0'] % 2 == 0), stream=0, group='conversions')
 E('convert-passrow', lambda s: etl.convert(s, 'f1', lambda v, row: v + row['f2'], pass_row=True), stream=0, group='conversions')
-E('convertall', lambda s: etl.convertall(s, str), stream=0, group='conversions')
-E('convertnumbers', lambda s: etl.convertnumbers(s), stream=0, group='conversions')
+E('convertall', lambda s: etl.convertall(s, str), stream=0, hdr=True, group='conversions')
+E('convertnumbers', lambda s: etl.convertnumbers(s), stream=0, hdr=True, group='conversions')
 E('replace', lambda s: etl.replace(s, 'f1', 'v1', 'X'), stream=0, group='conversions')
-E('replaceall', lambda s: etl.replaceall(s, 'v1', 'X'), stream=0, group='conversions')
+E('replaceall', lambda s: etl.replaceall(s, 'v1', 'X'), stream=0, hdr=True, group='conversions')
 E('update', lambda s: etl.update(s, 'f1', 'X'), stream=0, group='conversions')
 E('format', lambda s: etl.format(s, 'f0', '{:03d}'), stream=0, group='conversions')
-E('formatall', lambda s: etl.formatall(s, '{}'), stream=0, group='conversions')
+E('formatall', lambda s: etl.formatall(s, '{}'), stream=0, hdr=True, group='conversions')
 E('interpolate', lambda s: etl.interpolate(s, 'f0', '%03d'), stream=0, group='conversions')
-E('interpolateall', lambda s: etl.interpolateall(s, '%s'), stream=0, group='conversions')
+E('interpolateall', lambda s: etl.interpolateall(s, '%s'), stream=0, hdr=True, group='conversions')
 # selects
 E('select', lambda s: etl.select(s, lambda r: r['f0'] != 1), stream=0, group='selects')
 E('select-expr', lambda s: etl.select(s, '{f0} != 1'), stream=0, group='selects')
